@@ -18,7 +18,7 @@ INFO = {
     "(root, productions, leaves == tokens in order).  Verdict per case requires path-tree exhaustion.",
     "bounds": {
         "quick": {"N": 4, "K": 64, "grammars": "GF-shapes subset + stratified GF-tiny(3), tables LALR and SLR"},
-        "thorough": {"N": "5 (stratified) / 4 (all GF-tiny(3))", "K": 64},
+        "thorough": {"N": "5 (shapes) / 4 (all GF-tiny(3), 400 fixed GF-tiny(4), 600 fixed GF-tiny(3) with RHS length 3)", "K": 64},
     },
     "outside": "inputs longer than N; grammars outside the enumerated families; terminal priorities; regex terminals",
     "assumptions": [
@@ -32,8 +32,14 @@ QUICK_SHAPES = [
     "leftrec", "midrec", "ambig-binop", "ambig-concat-null", "cyclic-unit", "prop-c03", "prop-c05",
     "hidden-left", "hidden-right", "known-c02", "nullable-chain", "two-nullables", "lr2", "lr1-not-lalr",
     "lex-a-aa", "lex-a-ab-b", "lex-prefix", "paren", "rr-conflict", "right-nullable", "reduce-many-empty",
-    "cyclic-null", "deep-unit-cycle", "hidden-left-2",
+    "cyclic-null", "deep-unit-cycle", "hidden-left-2", "lex-alt", "nullable-rhs3", "nullable-tails", "glr-revisit", "g8",
 ]
+
+
+def universe():
+    """Everything any tier/seed can select (for the authoring-time sweep of known findings)."""
+    return [(g, 5) for g in corpus.shapes()] + [(g, 5) for g in corpus.gf_tiny(3)] + [(g, 4) for g in corpus.tiny4_fixed()] + [
+        (g, 4) for g in corpus.tiny3x3_fixed()]
 
 
 def cases(tier, seed):
@@ -53,7 +59,9 @@ def cases(tier, seed):
             out.append(_case(g, "LALR", 4))
         for g in corpus.stratified(corpus.gf_tiny(3), 120, seed):
             out.append(_case(g, "SLR", 4))
-        for g in corpus.stratified(corpus.gf_tiny(4), 150, seed):
+        for g in corpus.tiny4_fixed():
+            out.append(_case(g, "LALR", 4))
+        for g in corpus.tiny3x3_fixed():
             out.append(_case(g, "LALR", 4))
     # refutation twin
     g = corpus.shape("leftrec")
@@ -79,7 +87,7 @@ def build(params, symbolic):
     parser = glr_build(spec, params["tables"])
     if symbolic:
         selfcheck_oracle(spec, min(N, 4))
-    skip = excluded_inputs("C01", spec.short())
+    skip = [] if params.get("no_skip") else excluded_inputs("C01", spec.short())
     twin = params.get("twin")
     stats = {}
 
